@@ -16,6 +16,8 @@ one of the recognised steps below (compared as syntax trees); anything else abor
   new_model.build_conditional_role_links(self.cond_rm_map)                    SBuildCondNew
   self.model = new_model                                                      SCommit
   self.build_role_links()                                                     SSelfBuild
+  self.model.build_role_links(self.rm_map)                                    SBuildOwn   (CoreEnforcer.build_role_links; Policy.build_role_links
+                                                                                          must be the recognised loop over self["g"].items())
   if <cond>: ... [else: ...]                                                  SIfL
        <cond> ::= self.auto_build_role_links | need_to_rebuild | len(self.rm_map) != 0 | len(self.cond_rm_map) != 0 | c and c
   try: ... except Exception as e: ... ; raise e                               STryL
@@ -48,6 +50,7 @@ SIMPLE = {
     D("new_model.build_conditional_role_links(self.cond_rm_map)"): "SBuildCondNew",
     D("self.model = new_model"): "SCommit",
     D("self.build_role_links()"): "SSelfBuild",
+    D("self.model.build_role_links(self.rm_map)"): "SBuildOwn",
     D("need_to_rebuild = True"): "SNeed true",
     D("need_to_rebuild = False"): "SNeed false",
 }
@@ -104,35 +107,66 @@ def block(stmts):
     return "[" + "; ".join(out) + "]"
 
 
-def translate(src):
+POLICY_BUILD = """def build_role_links(self, rm_map):
+    if "g" not in self.keys():
+        return
+    for ptype, ast in self["g"].items():
+        rm = rm_map.get(ptype)
+        if rm:
+            ast.build_role_links(rm)
+"""
+
+
+def method(cls, name, params):
+    fns = [n for n in cls.body if isinstance(n, ast.FunctionDef) and n.name == name]
+    if len(fns) != 1:
+        fail(cls, f"exactly one {name}")
+    fn = fns[0]
+    a = fn.args
+    if fn.decorator_list or [x.arg for x in a.args] != params or a.vararg or a.kwarg or a.defaults or a.kwonlyargs:
+        fail(fn, f"signature must be {name}({', '.join(params)})")
+    return fn
+
+
+def nodoc(stmts):
+    return [s for s in stmts if not (isinstance(s, ast.Expr) and isinstance(s.value, ast.Constant) and isinstance(s.value.value, str))]
+
+
+def translate(src, policy_src):
     mod = ast.parse(src)
     cls = [n for n in mod.body if isinstance(n, ast.ClassDef) and n.name == "CoreEnforcer"]
     if len(cls) != 1:
         fail(mod, "class CoreEnforcer")
-    fns = [n for n in cls[0].body if isinstance(n, ast.FunctionDef) and n.name == "load_policy"]
-    if len(fns) != 1:
-        fail(cls[0], "exactly one load_policy")
-    fn = fns[0]
-    a = fn.args
-    if fn.decorator_list or [x.arg for x in a.args] != ["self"] or a.vararg or a.kwarg or a.defaults or a.kwonlyargs:
-        fail(fn, "signature must be load_policy(self)")
-    return block(fn.body)
+    load = block(method(cls[0], "load_policy", ["self"]).body)
+    build = block(method(cls[0], "build_role_links", ["self"]).body)
+    # Policy.build_role_links (casbin/model/policy.py): what SBuildNew / SBuildOwn mean rests on this exact loop
+    pmod = ast.parse(policy_src)
+    pcls = [n for n in pmod.body if isinstance(n, ast.ClassDef) and n.name == "Policy"]
+    if len(pcls) != 1:
+        fail(pmod, "class Policy")
+    got = [ast.dump(x) for x in nodoc(method(pcls[0], "build_role_links", ["self", "rm_map"]).body)]
+    want = [ast.dump(x) for x in nodoc(ast.parse(POLICY_BUILD).body[0].body)]
+    if got != want:
+        fail(pcls[0], "Policy.build_role_links is not the recognised loop over self['g'].items()")
+    return load, build
 
 
 def main():
     repo = Path(sys.argv[1] if len(sys.argv) > 1 else "/repo")
     out = Path(sys.argv[2]) if len(sys.argv) > 2 else Path(__file__).resolve().parent.parent / "coq" / "gen" / "LoadPolicyGen.v"
     try:
-        body = translate((repo / "casbin" / "core_enforcer.py").read_text())
+        body, build = translate((repo / "casbin" / "core_enforcer.py").read_text(), (repo / "casbin" / "model" / "policy.py").read_text())
     except (TranslationError, SyntaxError, OSError, KeyError, IndexError, AttributeError) as e:
         print(f"TRANSLATION-FAILED core_enforcer.py load_policy: {e}")
         sys.exit(2)
     text = "\n".join(["(* GENERATED by translators/loadpolicy.py from casbin/core_enforcer.py (CoreEnforcer.load_policy) — do not edit *)",
                       "From Coq Require Import List NArith Bool.", "From PyCasbin Require Import Base LoadLang.", "Import ListNotations.", "",
-                      "Definition load_policy_gen : list lstmt :=", f"  {body}.", ""])
+                      "Definition load_policy_gen : list lstmt :=", f"  {body}.", "",
+                      "(* CoreEnforcer.build_role_links; Policy.build_role_links was checked to be the recognised loop *)",
+                      "Definition build_role_links_gen : list lstmt :=", f"  {build}.", ""])
     if not out.exists() or out.read_text() != text:
         out.write_text(text)
-    print(f"translated CoreEnforcer.load_policy -> {out}")
+    print(f"translated CoreEnforcer.load_policy, build_role_links -> {out}")
 
 
 if __name__ == "__main__":
